@@ -424,6 +424,78 @@ Definition ols_ok (cols : list (list Q)) (y w : list Q) (b : Q) (e2s : list Q) (
 Definition ols_ok_noint (cols : list (list Q)) (y w : list Q) (e2s : list Q) : bool :=
   enet_ok_fixed cols y w 0 0 0 e2s.
 
+(** ** ordinary least squares against the EXACT minimiser.
+      [qnormal_solve A y] solves the normal equations by fraction-free elimination; its result is only a
+      candidate - the checker [ols_exact_ok] verifies that the candidate (ws, bs) is an exact least-squares
+      solution (residual exactly orthogonal to every column) and then compares the sums of squared errors:
+      SSE(w, b) - SSE(ws, bs) <= tau2, the exact optimality gap of the returned fit. *)
+(** fraction-free Gauss-Jordan elimination (Montante / Bareiss) over Z: every row other than the pivot row
+    becomes (p * row - row_c * pivot_row) / previous pivot, an exact division; at the end the diagonal holds
+    the determinant and x_c = last entry of row c / diagonal entry of row c *)
+Fixpoint zfind_pivot (c : nat) (rows : list (list Z)) : option (list Z * list (list Z)) :=
+  match rows with
+  | [] => None
+  | r :: rs =>
+      if Z.eqb (nth c r 0%Z) 0 then
+        match zfind_pivot c rs with Some (pr, rest) => Some (pr, r :: rest) | None => None end
+      else Some (r, rs)
+  end.
+Fixpoint montante (k c : nat) (prev : Z) (done todo : list (list Z)) : option (list (list Z)) :=
+  match k with
+  | O => Some done
+  | S k' =>
+      match zfind_pivot c todo with
+      | None => None
+      | Some (pr, rest) =>
+          let pv := nth c pr 0%Z in
+          let elim r := let f := nth c r 0%Z in
+                        map (fun q => Z.div (pv * fst q - f * snd q) prev) (combine r pr) in
+          montante k' (S c) pv (map elim done ++ [pr]) (map elim rest)
+      end
+  end.
+(** a dyadic vector as integers over a common power-of-two denominator *)
+Definition zscale (v : list Q) : list Z * positive :=
+  let d := fold_left (fun m q => Pos.max m (Qden q)) v 1%positive in
+  (map (fun q => (Qnum q * (Zpos d / Zpos (Qden q)))%Z) v, d).
+Fixpoint zdot (a b : list Z) : Z :=
+  match a, b with x :: a', y :: b' => (x * y + zdot a' b')%Z | _, _ => 0%Z end.
+(** candidate exact least-squares coefficients for the design given by its columns [A] (dyadic data): the
+    normal equations of the integer-scaled problem, solved without fractions; the candidates share one
+    denominator and are deliberately not reduced (all later sums then stay on the shift-only path of [qadd]) *)
+Definition qnormal_solve (A : list (list Q)) (y : list Q) : option (list Q) :=
+  let As := map zscale A in
+  let '(yi, dy) := zscale y in
+  let rows := map (fun a => map (fun b => zdot (fst a) (fst b)) As ++ [zdot (fst a) yi]) As in
+  match montante (length A) 0 1%Z [] rows with
+  | None => None
+  | Some sol =>
+      let k := length A in
+      let cand := map (fun t => let '(j, (row, a)) := t in
+                         let num := (last row 0 * Zpos (snd a))%Z in
+                         let den := (nth j row 0 * Zpos dy)%Z in
+                         match den with
+                         | Zpos dp => Some (num # dp)
+                         | Zneg dp => Some ((- num) # dp)
+                         | Z0 => None
+                         end)
+                      (combine (seq 0 k) (combine sol As)) in
+      if forallb (fun o => match o with Some _ => true | None => false end) cand
+      then Some (map (fun o => match o with Some q => q | None => 0%Q end) cand) else None
+  end.
+
+Definition qsse (cols : list (list Q)) (y w : list Q) (b : Q) : Q :=
+  let r := qresidual (cols ++ [ones (length y)]) y (w ++ [b]) in qdot r r.
+Definition qsse0 (cols : list (list Q)) (y w : list Q) : Q :=
+  let r := qresidual cols y w in qdot r r.
+Definition ols_exact_ok (cols : list (list Q)) (y w : list Q) (b : Q) (ws : list Q) (bs : Q) (tau2 : Q) : bool :=
+  ols_ok cols y ws bs (repeat 0%Q (length cols)) 0
+  && Nat.eqb (length w) (length cols)
+  && Qle_bool (qsub (qsse cols y w b) (qsse cols y ws bs)) tau2.
+Definition ols_exact_ok_noint (cols : list (list Q)) (y w ws : list Q) (tau2 : Q) : bool :=
+  ols_ok_noint cols y ws (repeat 0%Q (length cols))
+  && Nat.eqb (length w) (length cols)
+  && Qle_bool (qsub (qsse0 cols y w) (qsse0 cols y ws)) tau2.
+
 (** multi-task (group) conditions of feature j: G = x_j^T R - l2 W_j (a t-vector),
     W_j = 0 -> |G| <= l1 + eps ;  W_j <> 0 -> |G - l1 W_j/|W_j|| <= eps ; norms compared squared *)
 Definition group_ok (G Wj : list Q) (l1 e2 : Q) : bool :=
